@@ -6,6 +6,11 @@ HERE = os.path.dirname(os.path.dirname(os.path.abspath(__file__)))
 ALL = ["C%02d" % i for i in range(1, 21)]
 
 CLAIMED = {
+ "C08": dict(
+   technique="TLA+ model IvpAdjoint.tla of the adjoint segment loop checked exhaustively by TLC; backward passes observed through a probing callable supplied as the backward method (time pair, augmented state, options of every segment) validated by TLC against Trace_IvpAdjoint.tla, with gradients of first and second order compared with autograd through closed-form solutions in the final event",
+   text="TLC checks for nt <= 4 and both ts.requires_grad settings: one segment per interval, newest first, y re-seeded from the stored forward value at every segment, every output's cotangent added exactly once, segments integrated with the backward options, time gradients recorded for every index iff ts requires grad; three deviations are caught. Real backward passes (two ODE families x 4 grids incl. decreasing and ragged x requires-grad subsets x cotangents on one/all outputs x explicit/object-held parameter) run with a probing backward method must match the model segment by segment: interval indices, y part bit-equal to the stored forward value, dL/dy part equal to the propagated cotangents (matrix-exponential reference), backward option present. ~60 further runs with the built-in backward for all five forward methods check values and gradients w.r.t. y0, parameter, every requested time (incl. ts[0]) and second order against autograd through the closed forms, zero/absent gradient for an unused parameter.",
+   design_ref="5.8, 6 (C08)",
+   note="Trusted: TLC/SANY; torch.matrix_exp / logistic closed form as references; tolerances per forward method listed in the evidence (continuous adjoint: agreement is limited by integrator accuracy)."),
  "C07": dict(
    technique="TLA+ models Tableau.tla (all rooted-tree order conditions, decided exactly by modular arithmetic on the tableaux extracted from the imported code), FixedRK.tla (exact rational trajectories and evaluation sequences) and AdaptiveRK.tla (step controller) checked by TLC; TLC's rational predictions replayed on the real fixed-step methods; ark.try hook traces of rk23/rk45 validated by TLC against Trace_AdaptiveRK.tla with numeric verdicts",
    text="TLC decides, for the coefficient tables actually present in the code (converted to rationals at run time), every order condition up to the declared order (17 trees to order 5) for rk4, rk38, euler, RK23 (3 with embedded 2) and RK45 (5 with embedded 4, FSAL extension), row-sum consistency and the error-estimator order; a weight perturbed by 1/1000 is caught. For y' = lam*y + mu*t on rational grids (both directions, single time point) TLC computes the exact trajectory and the exact (t, y) argument of every stage; the real solve_ivp must reproduce the values to a few ulps, y(ts[0]) = y0 bit-exactly and call the right-hand side at exactly the predicted arguments - one step of s stages per interval. The controller model is exhaustive for 3 targets / 6 trials; every trial step of 80 (quick) real adaptive runs (4 ODE families with closed-form solutions x 5 grids x tolerances) must match it (targets in order, landing on the requested time, rejection shrinks, no growth after a rejection, factor bounds) and the final event carries: first value = y0, global error within the stated bound, bit-identical prefix independence, tuple state = concatenated state; plus observed convergence orders and decreasing grids for the fixed-step methods.",
